@@ -37,6 +37,7 @@ type State struct {
 	closures map[string]*closure
 	recov    int // recover-scope depth
 	calls    map[string]string // $calls(name): number of calls of the functions named in the contract's `counts` clause
+	latchSeen bool  // the wake-up latch has been consulted since the head of the innermost loop (wakeup clause)
 	recvs    string // number of values received from channels in this function so far (ghost, $recvs)
 	sends    string // number of channel sends that completed in this function so far (ghost, $sends)
 	barrier  int // states with different barriers are never merged (paths through different loops)
@@ -46,7 +47,7 @@ type State struct {
 func (s *State) clone() *State {
 	n := &State{vars: make(map[types.Object]Val, len(s.vars)), heap: make(map[string]string, len(s.heap)),
 		pc: append([]string(nil), s.pc...), top: s.top, locks: map[string]string{}, known: make(map[string]bool, len(s.known)),
-		closures: map[string]*closure{}, recov: s.recov, barrier: s.barrier, sends: s.sends, recvs: s.recvs}
+		closures: map[string]*closure{}, recov: s.recov, barrier: s.barrier, sends: s.sends, recvs: s.recvs, latchSeen: s.latchSeen}
 	for k, v := range s.vars {
 		n.vars[k] = v
 	}
@@ -122,6 +123,8 @@ type FnCtx struct {
 	paramsEntry map[string]Val
 	recvName string
 	warnings []string
+	inLoop   int // nesting depth of loops being executed
+	nSleep   int
 	trusted  map[string]bool // extern / quiet / library-model functions this proof relies on
 	unsupported []string
 	info     *types.Info
@@ -612,6 +615,12 @@ func (fc *FnCtx) mergeStates(sts []*State) *State {
 			t = fc.nameIfBig(m, t, srt, "Hm_"+k)
 		}
 		m.heap[k] = t
+	}
+	m.latchSeen = true
+	for _, s := range sts {
+		if !s.latchSeen {
+			m.latchSeen = false
+		}
 	}
 	callNames := map[string]bool{}
 	for _, s := range sts {
